@@ -172,11 +172,18 @@ impl SrvRig {
     }
 }
 
-fn script(core: &FCore, r: &str, rng: &mut Rng) -> Value {
+fn script(core: &FCore, r: &str, rng: &mut Rng, step: &Value) -> Value {
     let mut s = core.s.lock().unwrap();
     s.r = r.to_string();
     s.val = *rng.pick(&[1u64, 2, 0xff, 0x1_0000_0000, u64::MAX, 0x8000_0000_0000_0000]);
     s.errno = *rng.pick(&[1, 2, 5, 12, 22, 38, 95, 4095]);
+    // the case may fix the handler's value / errno (so that every class of value is certainly exercised)
+    if step.get("val").map(|v| v.is_array()).unwrap_or(false) {
+        s.val = from_limbs(&step["val"]);
+    }
+    if let Some(e) = step.get("errno").and_then(|e| e.as_i64()) {
+        s.errno = e as i32;
+    }
     s.calls.clear();
     json!({"val": limbs(s.val), "errno": s.errno})
 }
@@ -322,9 +329,15 @@ pub fn run(cases: &[Value], trace: &mut Trace, seed: u64) {
             let peer_beh = step["peer"].as_str().unwrap_or("auto");
             let (sm, m, req) = make_req(k, var, &mut rng);
             let lent_id = req.file.as_ref().map(|f| fd_id(f.as_raw_fd())).unwrap_or_else(|| "none".to_string());
-            let hv = srv.as_ref().map(|s| script(&s.core, r, &mut rng)).unwrap_or_else(|| {
-                let val = *rng.pick(&[1u64, 2, 0xff, u64::MAX]);
-                let errno = *rng.pick(&[1i32, 22, 38]);
+            let hv = srv.as_ref().map(|s| script(&s.core, r, &mut rng, step)).unwrap_or_else(|| {
+                let mut val = *rng.pick(&[1u64, 2, 0xff, 0x1_0000_0000, u64::MAX, 0x8000_0000_0000_0000]);
+                let mut errno = *rng.pick(&[1i32, 22, 38]);
+                if step.get("val").map(|v| v.is_array()).unwrap_or(false) {
+                    val = from_limbs(&step["val"]);
+                }
+                if let Some(e) = step.get("errno").and_then(|e| e.as_i64()) {
+                    errno = e as i32;
+                }
                 json!({"val": limbs(val), "errno": errno})
             });
             let sent0 = SENT.load(std::sync::atomic::Ordering::SeqCst);
